@@ -21,6 +21,10 @@ rep={}
 for f in sorted(glob.glob(here+'/zz_verif*.go')):
     if os.path.basename(f) in skip: continue
     rep[repo+'/httpClient/'+os.path.basename(f)]=f
+# files added to packages of lib (exports of unexported helpers for the component overlays)
+for f in sorted(glob.glob(here+'/lib/**/zz_verif*.go', recursive=True)):
+    if os.path.basename(f) in skip: continue
+    rep[repo+'/lib/'+os.path.relpath(f, here+'/lib')]=f
 json.dump({'Replace':rep},open(out,'w'))
 PY
 cd "$REPO/httpClient"
